@@ -17,7 +17,7 @@ import ast
 
 from ..core import AnalysisError, finish, unparse
 from ..dataflow import Flow, chain, call_name
-from ..link import check_module, sample_of_set
+from ..link import check_module, sample_of_set, shared_mutable_values
 from ..absint import Interp
 from ..poly import eq
 from ..util import calls_in, qual, formals, returns_of, raises_of, \
@@ -1080,6 +1080,84 @@ def r6_raises(program, rep):
     rep.floor("C02-R6", 8)
 
 
+def _nonempty_known(T, node, L):
+    """Is there a fact in force at ``node`` saying the collection ``L`` is
+    not empty (a test made since L was last changed)?"""
+    LEN = ("call", ("global", "len"), (L,), ())
+    pl = plain(L)
+    PLEN = ("call", ("global", "len"), (pl,), ())
+    for t, p in T.all_facts(node):
+        for l_, n_ in ((L, LEN), (pl, PLEN)):
+            tt = plain(t) if l_ is pl else t
+            if (tt, p) in ((l_, True),
+                           (mk_cmp("Lt", ("const", 0), n_), True),
+                           (mk_cmp("LtE", ("const", 1), n_), True),
+                           (mk_cmp("Eq", n_, ("const", 0)), False),
+                           (mk_cmp("Eq", ("const", 0), n_), False),
+                           (n_, True)):
+                return True
+    return False
+
+
+def r6_empty_population(program, rep):
+    """random.sample(P, k >= 1) / random.choice(P) raise ValueError /
+    IndexError on an empty population - not a documented placement error.
+    Where the function itself shrinks the population (remove, discard, pop,
+    clear, -=) on a path that reaches the draw, a test that it is not empty
+    must be in force at the draw (made after the last removal)."""
+    n = 0
+    for m in sorted(m for m in program.modules if m.startswith(PL)):
+        for q, fn in program.functions(m):
+            draws = [c for c in ast.walk(fn) if isinstance(c, ast.Call) and
+                     isinstance(c.func, ast.Attribute) and
+                     c.func.attr in ("sample", "choice") and c.args and
+                     fn is _owner_fn(c)]
+            if not draws:
+                continue
+            T = Terms(fn)
+            for c in draws:
+                node = T.cfg.node_containing(c)
+                pop = c.args[0]
+                while isinstance(pop, ast.Call) and isinstance(
+                        pop.func, ast.Name) and pop.func.id in (
+                        "sorted", "list", "tuple") and len(pop.args) >= 1:
+                    pop = pop.args[0]
+                L = T.term(pop, node)
+                shrinks = [x for x in method_calls(T, (
+                    "remove", "discard", "pop", "clear",
+                    "difference_update", "intersection_update"))
+                    if x[2] == L or plain(x[2]) == plain(L)]
+                shrinks = [x for x in shrinks
+                           if T.cfg.reaches(x[0], node)]
+                if not shrinks:
+                    continue
+                n += 1
+                ok = _nonempty_known(T, node, L)
+                rep.check(ok, "C02-R6", "%s:%s" % (m, q), "a draw from a "
+                          "population this function shrinks is made only "
+                          "after a test that something is left",
+                          construct="draw from %s" % show(L)[:60], node=c,
+                          fail="%s draws from %s, which this function "
+                               "shrinks, without a test that it is not "
+                               "empty in force at the draw: when the last "
+                               "candidate has been removed the draw raises "
+                               "ValueError / IndexError, not one of the "
+                               "documented placement errors" % (
+                                   unparse(c.func), show(L)[:60]))
+    if n == 0:
+        raise AnalysisError("no draw from a shrinking population found "
+                            "(rand.place was expected to have one)")
+
+
+def _owner_fn(node):
+    p = getattr(node, "_parent", None)
+    while p is not None and not isinstance(p, (ast.FunctionDef,
+                                               ast.AsyncFunctionDef,
+                                               ast.Lambda)):
+        p = getattr(p, "_parent", None)
+    return p
+
+
 def r7_link(program, rep):
     mods = sorted(m for m in program.modules if m.startswith(PL)) + [
         "rig.place_and_route.machine", "rig.place_and_route.constraints",
@@ -1090,6 +1168,14 @@ def r7_link(program, rep):
         bad = list(check_module(m))
         for node, msg in bad:
             rep.bad("C02-R7", name, msg, "%s: %s" % (name, msg), node)
+        for v_, nm_, c_ in shared_mutable_values(m.tree):
+            bad.append((v_, "shared value"))
+            rep.bad("C02-R7", name, "one mutable object under every key",
+                    "%s binds %s to %s: every key / position holds the SAME "
+                    "object, and %s changes an entry in place - the change "
+                    "shows through every entry (a chip's list of vertices "
+                    "is every chip's list)" % (name, nm_, unparse(v_),
+                                               unparse(c_)[:60]), v_)
         for q, fn in program.functions(name):
             hits = sample_of_set(fn, Flow(fn))
             for c in hits:
@@ -1111,6 +1197,7 @@ def check(program, rep):
     rep.guard("C02-R4", r4_pairing, program, rep)
     rep.guard("C02-R5", r5_reservations, program, rep)
     rep.guard("C02-R6", r6_raises, program, rep)
+    rep.guard("C02-R6", r6_empty_population, program, rep)
     rep.guard("C02-R7", r7_link, program, rep)
     return finish(rep, program, EXPLANATION, NOT_DECIDED,
                   trusted=["resource-role table in rules/C02.py"])
